@@ -19,7 +19,7 @@ import numpy as np
 
 from bounded.views import view_catalogue
 
-class CaseTimeout(Exception):
+class CaseTimeout(BaseException):      # not an Exception: library code and harness code that catch Exception must not swallow it
     pass
 
 
